@@ -64,7 +64,40 @@ CALL = dict(
     cover=["return"],
 )
 
-CONTRACTS = [CALL]
+# ------------------------------------------------------------------------------------------------ Sampler.add -> Sample: each timing lands in its own field
+SAMPLE_FIELDS = {
+    "Sampler.start_timestamp": "real", "Sampler.q": "any", "Sampler.logger": "any",
+    "Sample.client_id": "any", "Sample.absolute_time": "real", "Sample.request_start": "real", "Sample.task_start": "real", "Sample.task": "obj[Task]", "Sample.sample_type": "any",
+    "Sample.request_meta_data": "any", "Sample.latency": "real", "Sample.service_time": "real", "Sample.processing_time": "real", "Sample.throughput": "any", "Sample.total_ops": "any",
+    "Sample.total_ops_unit": "any", "Sample.time_period": "any", "Sample._dependent_timing": "any", "Sample._operation_name": "any", "Sample._operation_type": "any",
+    "Sample.percent_completed": "any", "Task.operation": "any",
+}
+S = "eva(0, 1, 'obj[Sample]')"
+SAMPLER_ADD = dict(
+    target="esrally/driver/driver.py::Sampler.add",
+    prop="C04",
+    self_type="obj[Sampler]",
+    params={"task": "obj[Task]", "client_id": "any", "sample_type": "any", "meta_data": "any", "absolute_time": "real", "request_start": "real", "latency": "real", "service_time": "real",
+            "processing_time": "real", "throughput": "any", "ops": "any", "ops_unit": "any", "time_period": "any", "percent_completed": "any", "dependent_timing": "any"},
+    fields=SAMPLE_FIELDS,
+    externals={"self.q.put_nowait": dict(event="put", outcomes=[dict(returns="none"), dict(raises="queue.Full")])},
+    ensures=[
+        # exactly one sample is queued (or dropped with a warning when the queue is full), and every measurement sits in the field of its own name
+        "nev() == 1 and (evk(0) == 'put' or evk(0) == 'put!')",
+        f"implies(evk(0) == 'put', {S}.latency == latency and {S}.service_time == service_time and {S}.processing_time == processing_time)",
+        f"implies(evk(0) == 'put', {S}.client_id == client_id and ref({S}.task) == ref(task) and {S}.sample_type == sample_type and {S}.request_meta_data == meta_data)",
+        f"implies(evk(0) == 'put', {S}.absolute_time == absolute_time and {S}.request_start == request_start and {S}.task_start == self.start_timestamp)",
+        f"implies(evk(0) == 'put', {S}.throughput == throughput and {S}.total_ops == ops and {S}.total_ops_unit == ops_unit and {S}.time_period == time_period and {S}.percent_completed == percent_completed)",
+    ],
+    cover=["return"],
+)
+
+# service time = span from the FIRST wire request of the logical request to the last response: the request-context hooks of C18, claimed here too
+from contracts.C18 import ON_END, ON_START, UPD_END, UPD_START  # noqa: E402
+
+CTX_HOOKS = [dict(c, prop="C04") for c in (UPD_START, UPD_END, ON_START, ON_END)]
+
+CONTRACTS = [CALL, SAMPLER_ADD] + CTX_HOOKS
 ASSUMPTIONS = ["A-CLOCK: time.perf_counter is monotone (ghost clock); A-SLEEP: asyncio.sleep(d) returns no earlier than d later; A-REQ: the runner issues at least one wire request inside the request context and its start/end are clock readings taken during execute_single",
                "exact-real arithmetic"]
 NOT_DECIDED = ["the first request of a throttled task has scheduled time 0 and is measured as unthrottled (documented behaviour, encoded as such)", "execute_single's own result/error mapping (not yet under contract in this revision)"]
